@@ -11,6 +11,7 @@ The last section carries literal text and the escapes through codegen and the ta
 `Codegen/RenderLiteral.lean`).
 
 OPEN / partial:
+* (repaired, kept as regression detectors in the harness: F1/F1b, F2, F14, F15)
 * recorded finding F1c (`match_percent` reads `\s*` where the other line regexes read `[\t ]*`) – no theorem here
   is conditional on it; it is visible in `text_fidelity`'s percent clause (`ws` ranges over `\s`) and in the
   `\s*%%`-at-the-start condition of `Plain`;
@@ -37,6 +38,14 @@ theorem textlength_is_lexed_length : Generated.LexerCfg.textlengthIsLexedLength 
     `mako/pyparser.py: parse` is `Exception`-wide (regenerated from /repo; narrowing it breaks this obligation, and
     the hostile-Python oracle stream of the harness then shows the raw exception). -/
 theorem python_errors_are_wrapped : Generated.LexerCfg.pyparserWrapsEveryException = true := by decide
+
+/-- … and Python that CPython's parser *accepts* but that is nested deeper than the recursive identifier visitors
+    can follow (a chain of a few hundred `+`, attribute accesses, `lambda:` …) is refused the same way: the three
+    visitor entry points of `mako/ast.py` (`PythonCode`, `ArgumentList`, `FunctionDecl`) go through
+    `pyparser.visit`, which turns `RecursionError` into a Mako `SyntaxException` (regenerated from /repo since the
+    repair 8d3f80e of finding F15; reverting it breaks this obligation, and the hostile-Python stream reports
+    site `identifier-visitor-recursionerror` again). -/
+theorem deep_python_is_refused_not_crashed : Generated.LexerCfg.visitorsGuarded = true := by decide
 
 /-! ## termination and progress -/
 
